@@ -52,8 +52,8 @@ CHECKS = {
    note="The deciding dimensions are history and configuration (fill level, payload entropy, compression), not schedule; the critical zone estimated <= free < stored is a few bytes wide and is hit in a minority of runs (counted in probes).",
    technique=TECH + ": seeded histories steering the live segment's fill level between estimated and stored size, retry loop, read-back against the model", ref="§4 C19"),
  "C22": dict(engine="clustersim", cat="exploration",
-   text="One real ClusterActor (N = 1, rf = 1) and the real RESP server serving a client connection over an in-memory duplex pipe (hook S1). The simulator is the client: it sends seeded command histories from the documented grammar as RESP3 arrays, delivered in PRNG chunks (partial frames), some appends with a read pipelined behind them in the same write while the confirmation actor's mailbox is held back (hook K7): EAPPEND/EMAPPEND with every EXPECTED_VERSION form right and wrong, new and existing streams, multi-stream transactions, explicit ids, boundary timestamps; EGET; ESCAN/EPSCAN with PRNG ranges and counts; ESVER; EPSEQ; PING; 12 kinds of invalid request. A reference event-store model decides accept/reject and every reply field (sequences and per-event stream versions, event contents, scan contents, has_more, versions); invalid requests must answer an error and the connection must stay usable.",
-   note="Subscription commands (ESUB/EPSUB/EACK) are not driven through the RESP layer; subscriptions are checked below it in C09. Every stream is used under one home partition key (queries with a key other than the stream's own are outside the model). Scheduling and faults play a small part here: the fault kinds are partial frames and invalid requests on a live connection.",
+   text="One real ClusterActor (N = 1, rf = 1) and the real RESP server serving a client connection over an in-memory duplex pipe (hook S1). The simulator is the client: it sends seeded command histories from the documented grammar as RESP3 arrays, delivered in PRNG chunks (partial frames), some appends with a read pipelined behind them in the same write while the confirmation actor's mailbox is held back (hook K7): EAPPEND/EMAPPEND with every EXPECTED_VERSION form right and wrong, new and existing streams, multi-stream transactions, explicit ids, boundary timestamps; EGET; ESCAN/EPSCAN with PRNG ranges and counts; ESVER; EPSEQ; ESUB/EPSUB with FROM and WINDOW, their pushed messages and EACK; PING; 12 kinds of invalid request. A reference event-store model decides accept/reject and every reply field (sequences and per-event stream versions, event contents, scan contents, has_more, versions); invalid requests must answer an error and the connection must stay usable.",
+   note="ESUB (single stream), EPSUB (single partition) and EACK are driven through the RESP layer with start positions and windows; the multi-stream / multi-partition / MAP forms are checked below the RESP layer in C09. Every stream is used under one home partition key (queries with a key other than the stream's own are outside the model). Scheduling and faults play a small part here: the fault kinds are partial frames and invalid requests on a live connection.",
    technique=TECH + ": seeded command histories with partial-frame delivery over a simulated connection to the real server and ClusterActor, checked reply by reply against a reference event-store model", ref="§9.7"),
  "C26": dict(engine="breakersim", cat="exploration",
    text="The real circuit_breaker.rs source file is compiled (build.rs) against shuttle's atomics and a simulated millisecond wall clock; each run is one shuttle execution (seeded random or PCT depth 2-4 scheduler, every atomic access a scheduling point) of 2-3 threads x 3-8 calls with the clock advanced or stepped backwards between calls. Oracle: no panic; from the recorded call intervals, no half-open episode admits more than half_open_max_calls (+ the transition-triggering request) for every linearisation; Closed->Open only when enough failures had started.",
